@@ -21,9 +21,9 @@ PROP = {
         "bursts: only the upper bound and the status are asserted for concurrent callers (the statement claims exactness only one at a time); burst instants stay off the grid instants, which the sequential unit covers",
     ],
     "units": [
-        {"pkg": "c09", "test": "TestSequentialWindows", "quick": 3000, "thorough": 50000, "shards": 16},
-        {"pkg": "c09", "test": "TestIsolation", "quick": 1500, "thorough": 20000, "shards": 8},
-        {"pkg": "c09", "test": "TestBurst", "quick": 1500, "thorough": 20000, "shards": 8},
+        {"pkg": "c09", "test": "TestSequentialWindows", "quick": 20000, "thorough": 100000, "shards": 16},
+        {"pkg": "c09", "test": "TestIsolation", "quick": 6000, "thorough": 30000, "shards": 8},
+        {"pkg": "c09", "test": "TestBurst", "quick": 6000, "thorough": 30000, "shards": 8},
         {"pkg": "c09", "test": "TestWitnessBoundaryInstant", "kind": "plain"},
     ],
     "technique": ("property-based testing (rapid) of generated arrival histories on a harness-owned virtual clock; oracle = reference counter "
